@@ -278,7 +278,11 @@ def extract_playback(h, scratch):
     log = scratch / "extract.log"
     cmd = ["cargo", "kani", "-Z", "stubbing", "-Z", "concrete-playback", "--concrete-playback=print",
            "--exact", "--harness", h.path, "--target-dir", str(TARGETS / (ALT + h.group))]
-    run_cmd(cmd, scratch / h.group, log, max(h.timeout * 2, 600), h.mem_gb)
+    # kani-driver builds one trace per failed check incl. reachability checks: without this flag the
+    # playback step can need > 15 GB for harnesses with thousands of checks
+    if "no-assertion-reach-checks" not in (scratch / h.group / "Cargo.toml").read_text():
+        cmd += ["-Z", "unstable-options", "--no-assertion-reach-checks"]
+    run_cmd(cmd, scratch / h.group, log, max(h.timeout * 3, 1200), max(h.mem_gb, 40))
     text = log.read_text(errors="replace")
     out, seen = [], set()
     for m in re.finditer(r"```\n(.*?#\[test\].*?)```", text, re.S):
